@@ -3,6 +3,7 @@ package main
 // Symbolic executor over go/ssa (naive form).
 
 import (
+	"go/constant"
 	"fmt"
 	"go/ast"
 	"go/token"
@@ -988,6 +989,7 @@ func (x *Exec) execConvert(fr *Frame, st *State, i *ssa.Convert) {
 			if eb, ok := sl.Elem().Underlying().(*types.Basic); ok && eb.Kind() == types.Uint8 {
 				r := w.Fresh("bytes2str", SStr)
 				st.assume(Eq(w.SLen(r), w.slice.Get(v, 2)))
+				st.assume(Imp(Eq(w.slice.Get(v, 2), w.Int(0)), Eq(r, w.ConstTerm(constant.MakeString(""), types.Typ[types.String]))))
 				x.notes = append(x.notes, "string([]byte) conversion: only the length of the result is modelled")
 				fr.vals[i] = TV(r)
 				return
